@@ -1691,7 +1691,7 @@ class SelectRowsNode(ViewRepresentation):
         """
         assert isinstance(replacement_map, dict)
         new_sources = [s.replace_leaves(replacement_map) for s in self.sources]
-        return new_sources[0].select_rows_parsed_(parsed_ops=self.ops)
+        return new_sources[0].select_rows_parsed_(parsed_expr=self.ops)
 
     def _equiv_nodes(self, other):
         if not isinstance(other, SelectRowsNode):
